@@ -528,6 +528,34 @@ fn dependencies(snap: &Snap, band: u32) -> Vec<(fmt06::REntry, String, Vec<Strin
     v
 }
 
+/// The same for an interrupted version: its own entries, then what the stitching rule takes from
+/// the versions below it, each with the hunk file (of that older band) it sits in.
+fn stitched_dependencies(snap: &Snap, band: u32) -> Vec<(fmt06::REntry, String, Vec<String>)> {
+    let mut v = dependencies(snap, band);
+    let mut where_in: BTreeMap<u32, BTreeMap<String, String>> = BTreeMap::new();
+    for (e, from) in fmt06::ref_stitch(snap, band) {
+        if from == band {
+            continue;
+        }
+        let idx = where_in.entry(from).or_insert_with(|| {
+            let mut m = BTreeMap::new();
+            for (n, r) in snap.band_hunks(from) {
+                if let Ok(es) = r {
+                    for x in es {
+                        m.insert(x.apath, fmt06::hunk_path(from, n));
+                    }
+                }
+            }
+            m
+        });
+        if let Some(h) = idx.get(&e.apath).cloned() {
+            let blocks = e.addrs.iter().map(|a| Snap::block_path(&a.hash)).collect();
+            v.push((e, h, blocks));
+        }
+    }
+    v
+}
+
 pub fn c10_case(a: &DamageArchive, base: &Baseline, file: &str, dmg: &Damage, srcs: &SrcCache, scratch: &Scratch) -> Vec<Violation> {
     let mut v = Vec::new();
     let mut snap = a.snap.clone();
@@ -570,7 +598,20 @@ pub fn c10_case(a: &DamageArchive, base: &Baseline, file: &str, dmg: &Damage, sr
         let damaged_hunk_still_decodes = file.contains("/i/")
             && file.starts_with(&band_dir(b))
             && snap.files.get(file).is_some_and(|bytes| fmt06::decode_hunk(bytes).is_ok());
-        for (e, hunk, blocks) in dependencies(&a.snap, b) {
+        // (an interrupted version also consists of what it takes over from the versions below it;
+        // that part is judged when the damaged file is an index hunk or a block - a lower band
+        // whose head or tail is damaged may legitimately not be read at all)
+        // (... and not when it is a flipped hunk that still decodes: paths altered in it move the
+        // point where the older version is picked up, and the result is what the stitching rule
+        // gives for the hunk as it now reads)
+        let any_hunk_still_decodes =
+            file.contains("/i/") && snap.files.get(file).is_some_and(|bytes| fmt06::decode_hunk(bytes).is_ok());
+        let deps = if a.complete.contains(&b) || !matches!(file_class(file), "index-hunk" | "block") || any_hunk_still_decodes {
+            dependencies(&a.snap, b)
+        } else {
+            stitched_dependencies(&a.snap, b)
+        };
+        for (e, hunk, blocks) in deps {
             let key = &e.apath[1..];
             let untouched = hunk != file && !blocks.iter().any(|p| p == file);
             let want = match before.tree.get(key) {
@@ -711,6 +752,7 @@ pub fn run_c10(report: &Report, budget: &Budget) {
     report.set("rule", json!("three archives (small blocks with shared and combined blocks; complete + incomplete band; default options): every file except the archive header x {delete, truncate 0, truncate half, garbage} and every (quick: every 8th, offset by the seed) single-bit flip of every file; each damaged archive is run through versions, list and restore of every band, validate full and quick, a new backup and its restore. distinct_nontrivial = distinct (archive, file, damage) cases, each of which alters the stored bytes"));
     report.assume("hangs are caught by a watchdog and reported as a violation (operation-does-not-terminate)");
     report.assume("a flipped hunk that still decodes is judged only on no-crash and on the untouched files");
+    report.assume("an interrupted version is judged on its own entries and, when the damaged file is a block or an index hunk that no longer decodes, also on the entries it takes over from the versions below it (a damaged head or tail below may stop those versions from being read at all; a flipped hunk that still decodes moves the pick-up point legitimately)");
     report.assume("removing or emptying the last hunk of an incomplete band yields the state an interrupted backup leaves; loss of its entries cannot be reported by anyone and is not demanded");
     report.assume("an untouched file whose parent directory entry sat in the damaged hunk must restore exactly or the restore must report an error");
 }
